@@ -186,3 +186,7 @@ pub mod model;
 /// Verification hooks; only present with `--cfg rosu_pp_verif`.
 #[cfg(rosu_pp_verif)]
 pub mod verif;
+
+/// Verification hooks for skill aggregation; only present with `--cfg rosu_pp_verif`.
+#[cfg(rosu_pp_verif)]
+pub mod verif_skills;
